@@ -854,3 +854,43 @@ Proof.
       intro j; apply binfam_toks; vm_compute; reflexivity.
   - split; [vm_compute; discriminate|]. split; [vm_compute; reflexivity|vm_compute; discriminate].
 Qed.
+
+(* The call family (proofs/FmtToksCall.v): format_call_multiline (a `,` after EVERY argument; the grammar admits
+   the last one only because a line break follows) against expr_to_source, for a callee and arguments with
+   `lchild_ok`, a policy whose callee rule is needs_parens_in_postfix (pC = pP: true of the repaired policy), and
+   "the last chunk before the trailing comma is not `,`": same view at every width and indentation. *)
+Require Import Blots.proofs.FmtToksCall.
+Theorem C07_layout_view_call_partial : forall fx pol numtxt keepc w,
+  (forall c, pC pol c = pP pol c) ->
+  forall f args i,
+  tok_ok (printer_oracles fx pol numtxt keepc) (ECall f args) = true ->
+  lchild_ok fx pol numtxt keepc w f -> Forall (lchild_ok fx pol numtxt keepc w) args ->
+  last (wrapT (pP pol f) (Te fx pol numtxt f) ++ "(" :: joinc (map (Te fx pol numtxt) args))%list "" <> "," ->
+  lview (Formatter.render (Formatter.fmtd (printer_oracles fx pol numtxt keepc) w (ECall f args) i))
+  = lview (print_text fx pol numtxt (ECall f args)).
+Proof. exact call_family. Qed.
+Check C07_layout_view_call_partial : forall fx pol numtxt keepc w,
+  (forall c, pC pol c = pP pol c) ->
+  forall f args i,
+  tok_ok (printer_oracles fx pol numtxt keepc) (ECall f args) = true ->
+  lchild_ok fx pol numtxt keepc w f -> Forall (lchild_ok fx pol numtxt keepc w) args ->
+  last (wrapT (pP pol f) (Te fx pol numtxt f) ++ "(" :: joinc (map (Te fx pol numtxt) args))%list "" <> "," ->
+  lview (Formatter.render (Formatter.fmtd (printer_oracles fx pol numtxt keepc) w (ECall f args) i))
+  = lview (print_text fx pol numtxt (ECall f args)).
+Print Assumptions C07_layout_view_call_partial.
+
+(* satisfiable: f(a + b, "x, y") at width 1 *)
+Example C07_example_call :
+  let O := printer_oracles FX_ALL (policy_new fixed_opinfo) num_text true in
+  let args := [EBin Add (EId "a") (EId "b"); EStr "x, y"] in
+  (forall c, pC (policy_new fixed_opinfo) c = pP (policy_new fixed_opinfo) c) /\
+  tok_ok O (ECall (EId "f") args) = true /\
+  lchild_ok FX_ALL (policy_new fixed_opinfo) num_text true 1 (EId "f") /\
+  Forall (lchild_ok FX_ALL (policy_new fixed_opinfo) num_text true 1) args /\
+  Formatter.contains_nl (Formatter.render (Formatter.fmtd O 1 (ECall (EId "f") args) 0)) = true.
+Proof.
+  cbv zeta. split; [reflexivity|]. split; [vm_compute; reflexivity|]. split.
+  - repeat split; try (vm_compute; reflexivity). intro j; apply binfam_toks; vm_compute; reflexivity.
+  - split; [|vm_compute; reflexivity].
+    repeat constructor; try (vm_compute; reflexivity); intro j; apply binfam_toks; vm_compute; reflexivity.
+Qed.
